@@ -322,22 +322,92 @@ def aniso_case(ctx, c, sample=False):
              **{"aniso_face_" + k: True for k in kinds})
     ctx.expect_close("aniso forward", c, np.concatenate([E1.ravel(), H1.ravel()]), np.concatenate([mE1.ravel(), mH1.ravel()]))
     ctx.expect_close("aniso backward", c, np.concatenate([Eb.ravel(), Hb.ravel()]), np.concatenate([mEb.ravel(), mHb.ravel()]))
+    ctx.impl_property_evals += 1
     if lossless:
-        ctx.impl_property_evals += 1
         d = verdict(E, H, Eb, Hb)
         if d:
             ctx.violation(c, d)
+    else:
+        d = mats_fails(c)
+        if d:
+            ctx.violation(dict(c, oracle="mats"), d)
 
 
 def aniso_fails(c):
     """the property on the implementation: lossless full tensors round-trip exactly (lossy ones are outside the claim)"""
+    if c.get("oracle") == "mats":
+        return mats_fails(c)
+    if c.get("oracle") == "lossy_local":
+        return lossy_local_fails(c)
     if "eps_tier" not in c or "sig_e_tier" not in c:   # replay files written before the K extension
         c = dict(c, eps_tier=9, mu_tier=9 if c["seed"] % 2 == 0 else 0, sig_e_tier=None, sig_h_tier=None)
         c.setdefault("sources", [])
     if not aniso_lossless(c):
-        c = dict(c, sig_e_tier=None, sig_h_tier=None)
+        return None
     sc, (E, H), _, (Eb, Hb), *_ = aniso_impl(c)
     return verdict(E, H, Eb, Hb)
+
+
+def mats_fails(c):
+    """cell-local inverse of the update matrices on the implementation (mechanism anchor
+    compute_anisotropic_update_matrices_reverse; Lean: aniso_Arev_Afwd, aniso_Brev): A_rev·A = I, B_rev = A_rev·B"""
+    j = Y.J()
+    jnp = j["jnp"]
+    from fdtdx.fdtd.misc import compute_anisotropic_update_matrices as fw, compute_anisotropic_update_matrices_reverse as rv
+    from fdtdx.core.misc import expand_to_3x3
+    _, _, inv_eps, inv_mu, sig_e, sig_h = aniso_materials(c)
+    cn = 0.99 / np.sqrt(3.0)
+    for name, inv, sig, eta in (("E", inv_eps, sig_e, j["eta0"]), ("H", inv_mu, sig_h, 1.0 / j["eta0"])):
+        if sig is None:
+            continue
+        i3, s3 = expand_to_3x3(jnp.asarray(inv)), expand_to_3x3(jnp.asarray(sig))
+        A, B = (np.asarray(x) for x in fw(i3, s3, cn, eta))
+        Ar, Br = (np.asarray(x) for x in rv(i3, s3, cn, eta))
+        A, B, Ar, Br = (np.broadcast_to(x, (3, 3) + tuple(c["shape"])) for x in (A, B, Ar, Br))
+        e1 = np.max(np.abs(np.einsum("ij...,jk...->ik...", Ar, A) - np.eye(3)[:, :, None, None, None]))
+        e2 = np.max(np.abs(np.einsum("ij...,jk...->ik...", Ar, B) - Br))
+        if not (e1 <= 1e-9 and e2 <= 1e-9 * max(1.0, float(np.max(np.abs(Br))))):
+            return f"update matrices of {name}: |A_rev A - I| = {e1:.3e}, |A_rev B - B_rev| = {e2:.3e}"
+    return None
+
+
+def lossy_local_fails(c):
+    """lossy full tensors where the step is cell-local, so that the reverse step must undo it (Lean: aniso_lossy_cell_local):
+    homogeneous medium on a fully periodic domain and
+      inv_axis = None   spatially constant E and H (every neighbour average returns the value itself, the curls vanish), or
+      inv_axis = a      fields varying along axis a only and tensors coupling only the two OTHER components: every average
+                        the non-zero off-diagonal entries use shifts along the invariant axes only, hence is the identity"""
+    a = c.get("inv_axis")
+    c = dict(c, faces={k: "periodic" for k in Y.FACES}, bloch=False, bloch_vector=[0.0, 0.0, 0.0], sources=[])
+    sc = scene_of(c)
+    _, _, inv_eps, inv_mu, sig_e, sig_h = aniso_materials(c)
+
+    def homog(t):
+        if t is None or np.ndim(t) == 0:
+            return t
+        t = np.broadcast_to(t[:, :1, :1, :1], t.shape).copy()
+        if a is not None and t.shape[0] == 9:
+            t = t.reshape((3, 3) + t.shape[1:])
+            for b in range(3):
+                if b != a:
+                    t[a, b] = 0.0
+                    t[b, a] = 0.0
+            t = t.reshape((9,) + t.shape[2:])
+        return t
+    r = np.random.default_rng(c["seed"] + 5)
+    shp = (3,) + tuple(c["shape"])
+    if a is None:
+        E = np.broadcast_to(r.standard_normal(3)[:, None, None, None], shp).copy()
+        H = np.broadcast_to(r.standard_normal(3)[:, None, None, None], shp).copy()
+    else:
+        bs = [3, 1, 1, 1]
+        bs[a + 1] = c["shape"][a]
+        E = np.broadcast_to(r.standard_normal(bs), shp).copy()
+        H = np.broadcast_to(r.standard_normal(bs), shp).copy()
+    arrays = Y.with_state(sc, E, H, homog(inv_eps), homog(inv_mu), homog(sig_e), homog(sig_h))
+    st1 = Y.impl_forward(sc, arrays, t=0, n=1)
+    st0 = Y.impl_backward(sc, st1, n=1)
+    return verdict(E, H, np.asarray(st0[1].fields.E), np.asarray(st0[1].fields.H))
 
 
 FORCED = [
@@ -374,11 +444,18 @@ def property_fails(c):
 def search(ctx, hints):
     for h in hints:
         if isinstance(h, dict) and "shape" in h:
-            ctx.impl_property_evals += 1
-            d = property_fails(h)
-            if d:
-                ctx.violation(h, d)
-                return
+            variants = [h]
+            if h.get("aniso") and not aniso_lossless(h):
+                # lossy full tensors: the claim is the cell-local inverse (constant state) and the lossless variant of the scene
+                variants = [dict(h, oracle="mats")] + [dict(h, oracle="lossy_local", inv_axis=a) for a in (None, 0, 1, 2)] + [
+                            dict(h, sig_e_tier=None, sig_h_tier=None, eps_tier=9 if h.get("sig_e_tier") == 9 else h["eps_tier"],
+                                 mu_tier=9 if h.get("sig_h_tier") == 9 else h["mu_tier"])]
+            for v in variants:
+                ctx.impl_property_evals += 1
+                d = property_fails(v)
+                if d:
+                    ctx.violation(v, d)
+                    return
     rng = ctx.rng.fork()
     for i in range(ctx.scale(40, 300)):
         c = gen_case(rng, False)
